@@ -42,7 +42,14 @@ type c10RTCase struct {
 
 // all divisible by 4: calls are issued at quarter-interval offsets strictly between two ticks,
 // so no call ever coincides with a tick in virtual time
-var c10RTIntervals = []time.Duration{10 * time.Millisecond, time.Millisecond, time.Second, time.Hour, 8 * time.Microsecond, 4 * time.Nanosecond, 100 * time.Millisecond, time.Minute}
+//
+// The last three (1, 2, 3 ns: legal intervals, the smallest a wheel can be built with) cannot be
+// split into quarters. For them ("tiny") every call is issued right after construction, when the
+// wheel has certainly seen T = 0 ticks (virtual time stands still while the harness runs and the
+// first tick is one interval away); "adv" ops are skipped and the harness only sleeps once, past
+// the last due tick.
+var c10RTIntervals = []time.Duration{10 * time.Millisecond, time.Millisecond, time.Second, time.Hour, 8 * time.Microsecond, 4 * time.Nanosecond, 100 * time.Millisecond, time.Minute,
+	time.Nanosecond, 2 * time.Nanosecond, 3 * time.Nanosecond}
 
 type c10RTFire struct {
 	at       time.Duration
@@ -66,7 +73,12 @@ func c10RTInterp(t *testing.T, c c10RTCase) (v kit.Verdict) {
 	nontrivial := false
 	res := kit.Bubble(t, func() {
 		iv := c10RTIntervals[c.Iv%len(c10RTIntervals)]
-		quarter := iv / 4
+		quarter, per := iv/4, 4 // harness time unit, units per tick
+		tiny := iv < 4
+		if tiny {
+			quarter, per = iv, 1
+			classes["interval-below-4ns-calls-at-construction"] = true
+		}
 		classes["interval-"+iv.String()] = true
 		var mu sync.Mutex
 		var fires []c10RTFire
@@ -90,7 +102,7 @@ func c10RTInterp(t *testing.T, c c10RTCase) (v kit.Verdict) {
 		sleepQ := func(n int) {
 			time.Sleep(time.Duration(n) * quarter)
 			q += n
-			if q%4 == 0 { // never rest on a tick instant
+			if !tiny && q%4 == 0 { // never rest on a tick instant
 				time.Sleep(quarter)
 				q++
 			}
@@ -108,7 +120,7 @@ func c10RTInterp(t *testing.T, c c10RTCase) (v kit.Verdict) {
 		// expect: everything the model says became due up to the current tick count must have
 		// executed, each at exactly due*I after construction, and nothing else
 		expect := func(what string) bool {
-			T := q / 4
+			T := q / per
 			var want []c10RTFire
 			if !stopped && !drained {
 				for k, p := range model {
@@ -130,11 +142,19 @@ func c10RTInterp(t *testing.T, c c10RTCase) (v kit.Verdict) {
 			}
 			return true
 		}
-		sleepQ(c.Q0)
+		if !tiny {
+			sleepQ(c.Q0)
+		}
 		for i, o := range c.Ops {
 			what := fmt.Sprintf("op %d %+v", i, o)
-			T := q / 4
+			T := q / per
 			d := time.Duration(o.M)*iv + time.Duration(o.R)*quarter
+			if tiny {
+				d = time.Duration(o.M) * iv
+				if o.Kind == "adv" {
+					continue
+				}
+			}
 			var err error
 			switch o.Kind {
 			case "set":
@@ -221,13 +241,13 @@ func c10RTInterp(t *testing.T, c c10RTCase) (v kit.Verdict) {
 			}
 		}
 		if !stopped {
-			maxDue := q / 4
+			maxDue := q / per
 			for _, p := range model {
 				if p.due > int64(maxDue) {
 					maxDue = int(p.due)
 				}
 			}
-			sleepQ(4*(maxDue-q/4+c.Slots+1) + 1)
+			sleepQ(per*(maxDue-q/per+c.Slots+1) + 1)
 			if !expect("horizon") {
 				return
 			}
@@ -254,9 +274,12 @@ func c10RTInterp(t *testing.T, c c10RTCase) (v kit.Verdict) {
 
 func c10RTGen(rt *rapid.T) c10RTCase {
 	c := c10RTCase{
-		Iv:    rapid.IntRange(0, len(c10RTIntervals)-1).Draw(rt, "iv"),
+		Iv:    rapid.IntRange(0, 7).Draw(rt, "iv"),
 		Slots: rapid.IntRange(1, 12).Draw(rt, "slots"),
 		Q0:    rapid.IntRange(1, 3).Draw(rt, "q0"),
+	}
+	if rapid.IntRange(0, 11).Draw(rt, "tinyq") == 0 { // 1, 2, 3 ns
+		c.Iv = rapid.IntRange(8, len(c10RTIntervals)-1).Draw(rt, "tinyiv")
 	}
 	if rapid.IntRange(0, 19).Draw(rt, "manyslots") == 19 {
 		c.Slots = rapid.SampledFrom([]int{60, 100, 300, 600}).Draw(rt, "bigslots") // the sizes the repository's callers use
